@@ -348,26 +348,28 @@ func (d *ShellGrantData) ReadFrom(r io.Reader) (int64, error) {
 	return 0, nil
 }
 
+// ErrGrantDataUnimplemented is returned when (de)serializing grant data of a grant type that has
+// no wire format yet (LocalPF, RemotePF).
+var ErrGrantDataUnimplemented = errors.New("grant data for this grant type is unimplemented")
+
 // WriteTo writes serialized local pf grant data
 func (d *LocalPFGrantData) WriteTo(w io.Writer) (int64, error) {
-	panic("LocalPFGrantData WriteTo: unimplemented")
+	return 0, ErrGrantDataUnimplemented
 }
 
 // ReadFrom reads a serialized commandgrantdata block
 func (d *LocalPFGrantData) ReadFrom(r io.Reader) (int64, error) {
-	// read command
-	panic("LocalPFGrantData ReadFrom: unimplemented")
+	return 0, ErrGrantDataUnimplemented
 }
 
 // WriteTo writes serialized remote pf grant data
 func (d *RemotePFGrantData) WriteTo(w io.Writer) (int64, error) {
-	panic("RemotePFGrantData WriteTo: unimplemented")
+	return 0, ErrGrantDataUnimplemented
 }
 
 // ReadFrom reads a serialized commandgrantdata block
 func (d *RemotePFGrantData) ReadFrom(r io.Reader) (int64, error) {
-	// read command
-	panic("RemotePFGrantData ReadFrom: unimplemented")
+	return 0, ErrGrantDataUnimplemented
 }
 
 // ReadIntentRequest reads intent request and returns intent
